@@ -35,7 +35,7 @@ CHECKS.update({
               "far forward and backwards, with --set-version targets derived by the reference model (greater, equal, lower, "
               "junk, trailing text, PEP 440-equal respelling, tag downgrade, other scheme). Oracle: exit 0 => the announced "
               "version is accepted in full by an independent recogniser and is strictly greater under vendored "
-              "packaging.version; exit != 0 or --dry => directory snapshot unchanged."),
+              "packaging.version; exit != 0 or --dry => directory snapshot unchanged. UNQUOTED: a TOML current_version written as a bare number (1.10) is refused or read as written."),
         design_ref="DESIGN.md 6.1", note="Trusted: ref.pattern recogniser, vendored packaging.version + legacy key. Sampled, not exhaustive.",
         technique=TECH + "seeded invocation histories x clock jumps, reference recogniser/order as oracle"),
     "C02": dict(
